@@ -99,7 +99,7 @@ var plans = map[string]plan{
 	"C16": {
 		Quick:    []stage{rapidStage(1_200)},
 		Thorough: []stage{rapidStage(60_000)},
-		Rule:     "cases are fsgen multi-file layouts (every component kind, nested directories, chains, cycles, several spellings of one file, references back into the root, relative and absolute roots) loaded with external references allowed and then internalised with the default name resolver. Checked: I1 no $ref outside #/components/ in the marshalled result; I2 it loads with the switch off; I3 Validate verdict equals the original's; I4 the fully expanded content (references replaced by their targets, cycles cut at the second visit of a marker) of paths and of every root component is unchanged, markers included - which also means two distinct external targets are never merged under one name. non-trivial = at least 3 files and 2 external references. distinct = FNV-64a of the canonical case JSON.",
+		Rule:     "cases are fsgen multi-file layouts (every component kind, nested directories, chains, cycles, several spellings of one file, references back into the root, relative and absolute roots) loaded with external references allowed and then internalised with the default name resolver. Checked: I1 no $ref outside #/components/ in the marshalled result; I2 it loads with the switch off; I3 Validate verdict equals the original's; I4 the fully expanded content (references replaced by their targets, cycles cut at the second visit of a marker) of paths and of every root component is unchanged, markers included - which also means two distinct external targets are never merged under one name; I6 for valid documents, up to 240 requests per case (every operation x JSON bodies of every JSON type x texts for the declared query parameters) and a 200 and a 404 response for each are validated against the original and against the reloaded internalised document through gorillamux routers, and the verdict triples must be equal. non-trivial = at least 3 files and 2 external references. distinct = FNV-64a of the canonical case JSON.",
 		Assume: []string{
 			"expansion uses internal/fsgen.Resolve on the raw files (before) and on the single internalised JSON (after)",
 			"layouts the loader rejects are C02's concern and are discarded here (counted)",
